@@ -735,6 +735,7 @@ func init() {
 				}
 				var res DagResult
 				json.Unmarshal(r.Res, &res)
+			attachItem(res.Viol, "dag", raw[r.Index])
 				tot.Dags += res.Dags
 				tot.Runs += res.Runs
 				tot.Inserts += res.Inserts
